@@ -230,3 +230,8 @@ Definition pb_abs (b : pbuf) : list (H * list Z) :=
   pb_split (ring_abs (pb_meta b)) (ring_abs (pb_payload b)).
 
 End PacketBuf.
+
+Arguments PODeq {H}.
+Arguments PODeqWith {H} acc.
+Arguments POPeek {H}.
+Arguments POReset {H}.
